@@ -217,6 +217,7 @@ props["C05"] = {
         run("root", "VxC05Sync", {"N": 2, "R": 2}, {"N": 3, "R": 3}),
         run("root", "VxC05Limited", {"N": 3}, {"N": 4}),
         run("root", "VxC05Compact", {"K": 2}, {"K": 3}),
+        run("root", "VxC04InitBehind", {}, {}, note="start-up baseline from a replica whose listing may break off part-way (shared with C04)"),
         run("root", "VxC05Monitor", {"N": 2}, {"N": 3}, note="the background upload loop under faults that wrap context errors: keeps running, catches up"),
     ],
     "assumptions": [
@@ -376,7 +377,7 @@ props["C02"] = {
         run("root", "VxC09Budget", {"PS": 8, "K": 2, "_tactic": 1}, {"PS": 8, "K": 3, "_tactic": 1}, note="pageMap cuts only at commit frames (shared with C09)"),
         run("root", "VxC01Sync", {}, {}, note="each level-0 file holds committed pages only and is numbered pos+1 (shared with C01)"),
         run("root", "VxC09Resume", {"PS": 8, "K": 2, "_tactic": 1}, {"PS": 8, "K": 3, "_tactic": 1}, note="a copy that resumes mid-WAL only continues the generation and position it was given (shared with C09)"),
-        run("root", "VxC04Fresh", {"ROUND2": 0}, {"ROUND2": 0}, note="after a restart, whatever verify decides, the file the next sync publishes is one consistent state: the source (shared with C04)"),
+        run("root", "VxC04Fresh", {"VS": 1}, {"VS": 1}, note="after a restart, whatever the real verifyAndSyncWithExecutor decides, the file it publishes is one consistent state: the source (shared with C04)"),
         run("root", "VxC14Checkpoint", {}, {}, note="checkpoint protocol: a PASSIVE checkpoint runs under the write lock after a sealing copy; an unsealed checkpoint is followed by a boundary snapshot under the write lock (shared with C14/C01)"),
     ],
     "assumptions": [
@@ -393,6 +394,7 @@ props["C04"] = {
     "unreached_ok": ["idle-round-keeps-replica-at-source", "restore-from-the-replica-succeeds", "restored-database-equals-source", "upload-acknowledged-means-stored"],
     "runs": [
         run("root", "VxC04Fresh", {"ROUND2": 0}, {}),
+        run("root", "VxC04Fresh", {"VS": 1}, {"VS": 1}, note="the same histories through the real verifyAndSyncWithExecutor in one call, judged on content"),
         run("root", "VxC04SameProcess", {"ROUND2": 0}, {}),
         run("root", "VxC04Reopened", {"ROUND": 0}, {}),
         run("root", "VxC04Reset", {}, {}),
@@ -460,6 +462,7 @@ rewrites = [
     {"file": "db.go", "from": "func (db *DB) sync(", "to": "func (db *DB) syncReal("},
     {"file": "db.go", "from": "func (db *DB) lockExec(", "to": "func (db *DB) lockExecReal("},
     {"file": "db.go", "from": "func (db *DB) verifyWithExecutor(", "to": "func (db *DB) verifyWithExecutorReal("},
+    {"file": "replica.go", "from": "func (r *Replica) lockSync(", "to": "func (r *Replica) lockSyncReal("},
 ]
 
 def write_manifest():
